@@ -7,6 +7,13 @@ SmallProducts == {
     [imgs |-> << Im("HH", ""), Im("HV", "") >>, nmap |-> 0],
     [imgs |-> << Im("HH", "F1"), Im("HH", "F2"), Im("HV", "F1") >>, nmap |-> 0] }
 
+Pool == { Im(p, s) : p \in {"HH", "HV", "VV"}, s \in {"", "F1", "F2"} }
+Seqs(n) == { q \in [1..n -> Pool] : \A i, j \in 1..n : i # j => GroupName(q[i]) # GroupName(q[j]) }
+Family == { [imgs |-> q, nmap |-> m] : q \in Seqs(1) \cup Seqs(2) \cup Seqs(3), m \in 0..1 }
+ASSUME "PRODUCTS_FILE" \in DOMAIN IOEnv => JsonSerialize(IOEnv.PRODUCTS_FILE,
+         LET f == SetToSeq(Family) IN [i \in 1..Len(f) |-> [prod |-> f[i], names |-> [k \in 1..Len(f[i].imgs) |-> GroupName(f[i].imgs[k])],
+                                                            meta |-> SetToSeq(MetaGroups(f[i]))]])
+
 FaultCases == LET ps == SetToSeq(SmallProducts) IN
               [i \in 1..Len(ps) |-> [prod |-> ps[i], faults |-> SetToSeq(Faults(ps[i]))]]
 ASSUME "FAULTS_FILE" \in DOMAIN IOEnv => JsonSerialize(IOEnv.FAULTS_FILE, FaultCases)
